@@ -626,12 +626,15 @@ func (k Keeper) WithdrawAppReserveFundsFn(ctx sdk.Context, appId, assetId uint64
 		return types.ErrorInvalidAppOrAssetData
 	}
 
-	if appReserveFunds.TokenQuantity.Amount.Sub(tokenQuantity.Amount).GTE(sdk.ZeroInt()) {
-		if tokenQuantity.Amount.GT(sdk.ZeroInt()) {
-			err := k.bank.SendCoinsFromModuleToModule(ctx, types.ModuleName, auctionsV2types.ModuleName, sdk.NewCoins(tokenQuantity))
-			if err != nil {
-				return err
-			}
+	// the reserve must hold what the auction asks for: recording the withdrawal without moving the
+	// coins would let the auction settle out of the other coins held by the auction module
+	if appReserveFunds.TokenQuantity.Amount.LT(tokenQuantity.Amount) {
+		return types.ErrorInvalidAppOrAssetData
+	}
+	if tokenQuantity.Amount.GT(sdk.ZeroInt()) {
+		err := k.bank.SendCoinsFromModuleToModule(ctx, types.ModuleName, auctionsV2types.ModuleName, sdk.NewCoins(tokenQuantity))
+		if err != nil {
+			return err
 		}
 	}
 	appReserveFunds.TokenQuantity.Amount = appReserveFunds.TokenQuantity.Amount.Sub(tokenQuantity.Amount)
